@@ -6,6 +6,7 @@ import (
 
 	"github.com/hack-pad/hackpadfs"
 	"github.com/hack-pad/hackpadfs/cache"
+	"github.com/hack-pad/hackpadfs/keyvalue"
 	"github.com/hack-pad/hackpadfs/mem"
 )
 
@@ -115,7 +116,16 @@ func VerifC11Faults() {
 	verifAssert(err == nil, "NewFS")
 	store := &c11Store{fs: storeMem, faultAt: -1}
 	var cfs *cache.ReadOnlyFS
-	if verifChoice("store", 2) == 1 {
+	var kvStore *pStore
+	storeKind := verifChoice("store", 3)
+	if storeKind == 2 {
+		// a different composition: the cache store is a keyvalue.FS over a plain key-value store that may reject a call
+		verifTag("store", "keyvalue-over-plain-store")
+		kvStore = pNewStore()
+		kv, kerr := keyvalue.NewFS(kvStore)
+		verifAssert(kerr == nil, "keyvalue.NewFS")
+		cfs, err = cache.NewReadOnlyFS(source, kv, cache.ReadOnlyOptions{})
+	} else if storeKind == 1 {
 		verifTag("store", "minimal")
 		cfs, err = cache.NewReadOnlyFS(source, store, cache.ReadOnlyOptions{})
 	} else {
@@ -125,10 +135,17 @@ func VerifC11Faults() {
 	verifAssert(err == nil, "NewReadOnlyFS")
 	fault := verifInt("fault")
 	verifAssume(fault >= 0)
-	verifAssume(fault <= 5)
+	if kvStore != nil {
+		verifAssume(fault <= 16) // Get and Set calls of the key-value store during one fill
+	} else {
+		verifAssume(fault <= 5)
+	}
 	if verifChoice("site", 2) == 0 {
 		verifTag("site", "source-read")
 		source.faultRead = fault
+	} else if kvStore != nil {
+		verifTag("site", "cache-store")
+		kvStore.calls, kvStore.faultAt = 0, fault
 	} else {
 		verifTag("site", "cache-store")
 		store.faultAt = fault
@@ -139,6 +156,10 @@ func VerifC11Faults() {
 	}
 	f, err := cfs.Open(fname)
 	fired := store.fired || source.reads > source.faultRead && source.faultRead >= 0
+	if kvStore != nil {
+		fired = fired || kvStore.fired
+		kvStore.faultAt = -1
+	}
 	source.faultRead, store.faultAt = -1, -1
 	if !fired {
 		verifReach("fault-not-reached")
